@@ -1,9 +1,21 @@
 """Family A (part 2): container bookkeeping, contracts, discipline rules."""
 import ast
+import re
 
 from .common import (Ob, AnalysisError, call_name, dotted, kwarg, get_arg, names_in, expand, nf, nf_expanded, same,
                      contains_nf, calls_in, calls_named, method_calls_on, floor, norm_guards, loop_paths, fn_paths,
                      calls_at_node, const_value, PARAM, strip_not, KINDS, ARITY, kind_of, is_none_test, is_self_attr)
+
+
+def _dynamic_attrs(repo):
+    """Does class Atoms set attributes on self through setattr with computed names (attribute universe unknown)?"""
+    for (m, q), fn in repo.fns.items():
+        if fn.cls == "Atoms":
+            for n in fn.all_nodes():
+                if isinstance(n, ast.Call) and call_name(n) == "setattr" and n.args and isinstance(n.args[0], ast.Name) and n.args[0].id == "self" \
+                        and len(n.args) > 1 and not isinstance(n.args[1], ast.Constant):
+                    return True
+    return False
 from verif_sa.core import FileObj
 from .common import eq_const, guard_eq
 from verif_sa.dataflow import header_exprs
@@ -99,7 +111,7 @@ def A8_assertion_postdominates(repo, clause):
                       "%d stores to per-atom/per-term arrays, %s post-dominated by self.assert_arrays_are_consistent_sizes()%s"
                       % (len(stores), "all" if not bad else "NOT all",
                          "" if not bad else " (e.g. self.%s at line %d)" % (bad[0][1], bad[0][0].lineno)),
-                      construct="self.assert_arrays_are_consistent_sizes()", slot="postdominates-stores"))
+                      construct="self.assert_arrays_are_consistent_sizes()", slot="postdominates-stores", positive=True))
     return obs
 
 
@@ -182,7 +194,15 @@ def A10_descending_contract(repo, clause):
             if any(isinstance(x, ast.Name) and x.id == P for x in ast.walk(a0)):
                 obs.append(Ob("A10", clause, callee, c, not iterative,
                               "np.searchsorted needs its first argument in ASCENDING order, but the same parameter `%s` must be DESCENDING for the iterative re-index "
-                              "(and every caller passes sorted(..., reverse=True)): the binary search misses deleted atoms" % P, slot="searchsorted-order"))
+                              "(and every caller passes sorted(..., reverse=True)): the binary search misses deleted atoms" % P, slot="searchsorted-order", positive=True))
+        if call_name(c) in ("isin", "in1d", "intersect1d", "setdiff1d") and const_value(kwarg(c, "assume_unique")) is True:
+            obs.append(Ob("A10", clause, callee, c, False,
+                          "%s(..., assume_unique=True) on the term array: atoms occur in several terms, so the array is NOT unique and numpy's sort-based "
+                          "path returns wrong membership" % call_name(c), slot="assume-unique", positive=True))
+    pm = sorted(p for p in repo.effects.mut[callee] if p == P)
+    obs.append(Ob("A10", clause, callee, callee.node, not pm,
+                  "the re-index helper %s its index argument `%s`; __delitem__ passes the SAME list for bonds, angles, dihedrals and impropers" % (
+                      "MUTATES" if pm else "does not mutate", P), construct="def %s" % callee.name, slot="index-argument-not-mutated", positive=True))
     for c in anys:
         obs.append(Ob("A10", clause, callee, c, call_name(c) == "any",
                       "a term is dropped when %s of its atoms is in the deleted set (must be ANY)" % call_name(c).upper(), slot="drop-quantifier"))
@@ -221,7 +241,7 @@ def A11_pop_deletes(repo, clause):
             if bare:
                 obs.append(Ob("A11", clause, fn, n, False,
                               "`del` of bare local names only unbinds the names %s; no atom is removed from the object"
-                              % [ast.unparse(t) for t in bare], slot="bare-del"))
+                              % [ast.unparse(t) for t in bare], slot="bare-del", positive=True))
             for t in n.targets:
                 if isinstance(t, ast.Subscript) and isinstance(t.value, ast.Name) and t.value.id == "self":
                     dels.append((n, t.slice))
@@ -231,7 +251,7 @@ def A11_pop_deletes(repo, clause):
     on_all = bool(dels) and cfg.must_pass(cfg.ENTRY, [d for d, _ in dels], cfg.EXIT)
     obs.append(Ob("A11", clause, fn, dels[0][0] if dels else fn.node, on_all,
                   "every path through pop reaches a deletion on self (%d deletion statements found)" % len(dels),
-                  construct="del self[...]" if not dels else None, slot="reaches-delitem"))
+                  construct="del self[...]" if not dels else None, slot="reaches-delitem", positive=not dels or not on_all))
     # negative default index must be normalised before __delitem__ (which compares raw index values)
     dflt = fn.param_defaults()
     pos = fn.params[1] if len(fn.params) > 1 else None
@@ -246,7 +266,8 @@ def A11_pop_deletes(repo, clause):
             normalised = callee_norm or ("len(" in txt) or any(isinstance(x, ast.Call) and call_name(x) in ("range", "arange") for x in ast.walk(e))
             obs.append(Ob("A11", clause, fn, d, normalised,
                           "default index %s is negative; it is %s to a non-negative atom index before term re-indexing compares raw index values"
-                          % (ast.unparse(dflt[pos]), "normalised" if normalised else "NOT normalised"), slot="negative-index"))
+                          % (ast.unparse(dflt[pos]), "normalised" if normalised else "NOT normalised"), slot="negative-index",
+                          positive=(not normalised) and e is not None and re.sub(r"[\[\]\s]", "", txt) == pos))
     return obs
 
 
@@ -280,7 +301,7 @@ def A12_extend_bookkeeping(repo, clause):
     uniq = {ast.unparse(s) if s is not None else None for s in sels.values()}
     obs.append(Ob("A12", clause, fn, fn.node, len(uniq) == 1 and None not in uniq,
                   "all per-atom appends select the other's rows with the same selector %s" % sorted(map(str, uniq)),
-                  construct="np.append(self.<per-atom>, other.<per-atom>[sel])", slot="same-selector"))
+                  construct="np.append(self.<per-atom>, other.<per-atom>[sel])", slot="same-selector", positive=not missing and len(uniq) > 1))
     selname = next(iter(uniq)) if len(uniq) == 1 else None
     # rows come from the matching attribute of other (positions<-positions etc.)
     for a, (n, v) in sorted(appends.items()):
@@ -343,7 +364,8 @@ def A12_extend_bookkeeping(repo, clause):
                 ok_k = len(cs) == 1 and isinstance(cs[0].args[0], ast.Attribute) and isinstance(cs[0].args[0].value, ast.Name) \
                     and cs[0].args[0].value.id != "self"
                 obs.append(Ob("A12", clause, fn, cs[0] if cs else conv[0], ok_k,
-                              "the other's %s tuples are re-targeted through the merged index map" % k, slot="convert:%s" % k))
+                              "the other's %s tuples are re-targeted through the merged index map" % k, slot="convert:%s" % k,
+                              undecided=not cs and any(not (c.args and kind_of(ast.unparse(c.args[0]))) for c in calls_named(fn, cname))))
     # selector = atoms of other not in the identity map
     seldef = [n for n in fn.own_nodes() if isinstance(n, ast.Assign) and len(n.targets) == 1 and isinstance(n.targets[0], ast.Name)
               and n.targets[0].id == selname]
@@ -404,10 +426,12 @@ def A13_exhaustive_per_atom(repo, clause, part="all"):
                     seen[a] = (n, same_idx and const_value(ax) == 0)
         for a in sorted(P):
             n, ok = seen.get(a, (None, False))
+            others_recognised = sum(1 for b in P if b != a and seen.get(b, (None, False))[1])
             obs.append(Ob("A13", clause, fn, n if n is not None else fn.node, ok,
                           "per-atom array self.%s: rows of the deleted indices are removed (np.delete(self.%s, %s, axis=0))%s"
                           % (a, a, idxp, "" if ok else " -- MISSING or different index/axis"),
-                          construct=None if n is not None else "self.%s" % a, slot="delitem:%s" % a))
+                          construct=None if n is not None else "self.%s" % a, slot="delitem:%s" % a,
+                          positive=(not ok) and others_recognised >= 3))
     if part in ("all", "getitem"):
         fn = repo.fn("Atoms.__getitem__")
         ext = repo.fn("Atoms.extend_types")
@@ -427,7 +451,8 @@ def A13_exhaustive_per_atom(repo, clause, part="all"):
             ok = a is not None and is_self_attr(a, t)
             obs.append(Ob("A13", clause, fn, c, ok,
                           "subset keeps type-level table %s (%s)" % (t, "forwarded" if ok else "DROPPED: type ids of the subset lose their %s" % t),
-                          construct="Atoms(..., %s=self.%s)" % (t, t), slot="getitem:%s" % t))
+                          construct="Atoms(..., %s=self.%s)" % (t, t), slot="getitem:%s" % t,
+                          positive=not any(k.arg is None for k in c.keywords)))
         for p in sorted(P - {"extra_atom_fields"}):
             a = kwarg(c, p)
             ok = a is not None and isinstance(a, ast.Call) and call_name(a) == "take" and a.args and is_self_attr(a.args[0], p)
@@ -472,7 +497,7 @@ def A14_randomness_sites(repo, clause):
             if ok:
                 ok, extra = _random_site_constraint(repo, fn, c, d)
                 detail += "; " + extra
-            obs.append(Ob("A14", clause, fn, c, ok, detail, slot="%s:%s" % (top.qualname, d)))
+            obs.append(Ob("A14", clause, fn, c, ok, detail, slot="%s:%s" % (top.qualname, d), positive=reason is None))
     floor("A14", "randomness call sites", n, 3)
     obs.extend(_degenerate_axis_fallback(repo, clause))
     return obs
@@ -509,7 +534,7 @@ def _degenerate_axis_fallback(repo, clause):
     obs.append(Ob("A14", clause, fn, n, ok,
                   "fallback axis = %s: helper is %s" % (ast.unparse(n.value)[:70], "random (never parallel to the input, almost surely)" if rnd else
                                                      ("a CONSTANT vector: inputs along it give a zero axis and a degenerate rotation, so occurrences in that pose are lost" if consts
-                                                      else "input-dependent")), slot="fallback-axis-helper"))
+                                                      else "input-dependent")), slot="fallback-axis-helper", positive=bool(consts)))
     return obs
 
 
@@ -600,7 +625,7 @@ def A15_none_tests(repo, clause, funcs=("find_pattern_in_structure", "replace_pa
                     if truthy:
                         obs.append(Ob("A15", clause, fn, fn.stmt_of(n), False,
                                       "optional index parameter %s is used as %s: index 0 is falsy and is treated as 'not given'" % (p, truthy),
-                                      slot="%s:truthiness" % p))
+                                      slot="%s:truthiness" % p, positive=True))
     floor("A15", "`is None` tests on optional index parameters", n_tests, 4)
     return obs
 
@@ -621,7 +646,7 @@ def A16_zip_star_guard(repo, clause, funcs=("Atoms.load_cml",)):
                 obs.append(Ob("A16", clause, fn, n, ok,
                               "`a, b, ... = zip(*%s)` raises ValueError when %s is empty; %s" % (
                                   src, src, "guarded" if guarded else ("exempt: " + ex if ex else "NOT guarded and empty input is inside the property's domain")),
-                              slot="unpack-zip:%s" % tag))
+                              slot="unpack-zip:%s" % tag, positive=True))
     # bonds must be resolved through the id map
     fn = repo.fn("Atoms.load_cml")
     return obs
@@ -651,7 +676,7 @@ def A17_mass_guess(repo, clause):
     floor("A17", "tolerance tests", len(tests), 1)
     for f, t in tests:
         two_sided, why = _two_sided(t, tolname)
-        obs.append(Ob("A17", clause, f, t, two_sided, why, slot="two-sided"))
+        obs.append(Ob("A17", clause, f, t, two_sided, why, slot="two-sided", positive=True))
     # nearest vs first hit
     first_hit = []
     nearest = []
@@ -669,7 +694,7 @@ def A17_mass_guess(repo, clause):
     for f, n in first_hit:
         obs.append(Ob("A17", clause, f, n, False,
                       "the scan returns the first table entry that passes the tolerance test, not the nearest one "
-                      "(two entries can both be within tolerance)", slot="nearest"))
+                      "(two entries can both be within tolerance)", slot="nearest", positive=True))
     if not first_hit:
         best_loop = None
         for f, lp in scan_loops:
@@ -705,7 +730,7 @@ def A17_mass_guess(repo, clause):
                 obs.append(Ob("A17", clause, f, b, ordered,
                               "the scan over the mass table stops early; that is only sound for a table in increasing mass order, "
                               "and ATOMIC_MASSES is %s (entries lighter than their predecessor: %s)" % (
-                                  "ordered" if ordered else "NOT ordered", inversions[:8]), slot="early-termination"))
+                                  "ordered" if ordered else "NOT ordered", inversions[:8]), slot="early-termination", positive=True))
     # the raise for "no element" must exist
     raises = [n for f in [outer] + cands for n in f.own_nodes() if isinstance(n, ast.Raise)]
     obs.append(Ob("A17", clause, fe, raises[0] if raises else fe.node, bool(raises),
@@ -719,7 +744,7 @@ def A17_mass_guess(repo, clause):
     a = get_arg(c, outer.params, tolname)
     obs.append(Ob("A17", clause, ld, c, a is not None and isinstance(a, ast.Name) and a.id in ld.params,
                   "loader forwards its documented tolerance parameter (%s) to the guess" % (ast.unparse(a) if a is not None else "nothing"),
-                  slot="loader-forwards-tolerance"))
+                  slot="loader-forwards-tolerance", positive=True))
     # fallback handler
     tr = [t for t in ld.own_nodes() if isinstance(t, ast.Try) and any(x is c for b in t.body for x in ast.walk(b))]
     if len(tr) != 1:
@@ -817,10 +842,10 @@ def A18_cli_wiring(repo, clause):
         obs.append(Ob("A18", clause, fn, d, name in fn.params,
                       "command-line %s %s is bound to parameter %s of mofun_cli (%s)" % (
                           call_name(d), [a.value for a in d.args if isinstance(a, ast.Constant)][:2], name,
-                          "exists" if name in fn.params else "NO SUCH PARAMETER: click raises TypeError"), slot="dest:%s" % name))
+                          "exists" if name in fn.params else "NO SUCH PARAMETER: click raises TypeError"), slot="dest:%s" % name, positive=True))
     for p in fn.params:
         if p not in [n for _, n in dests]:
-            obs.append(Ob("A18", clause, fn, fn.node, False, "parameter %s has no command-line option" % p, construct="def mofun_cli", slot="param-without-option:%s" % p))
+            obs.append(Ob("A18", clause, fn, fn.node, False, "parameter %s has no command-line option" % p, construct="def mofun_cli", slot="param-without-option:%s" % p, positive=True))
 
     def flows_to(param, callee, where):
         hits = []
@@ -944,7 +969,7 @@ def A18_cli_wiring(repo, clause):
         dt = dispatch_types(f)
         ok = lits is not None and all(s.startswith(".") and s[1:] in dt for s in lits)
         obs.append(Ob("A18", clause, fn, fn.node, ok, "%s suffixes %s are all dispatched by Atoms.%s (%s)" % (which, lits, f.name, sorted(dt)),
-                      construct="%s.suffix in %s" % (var, lits), slot="suffix:%s" % which))
+                      construct="%s.suffix in %s" % (var, lits), slot="suffix:%s" % which, positive=lits is not None and bool(dt)))
     return obs
 
 
@@ -1038,7 +1063,7 @@ def A19_attribute_discipline(repo, clause, funcs=None):
                           construct="def %s" % fn.name, slot="accesses"))
             for b in bad:
                 obs.append(Ob("A19", clause, fn, b, False, "`%s` is not an attribute, property or method of Atoms" % ast.unparse(b),
-                              slot="unknown-attr:%s" % b.attr))
+                              slot="unknown-attr:%s" % b.attr, positive=not _dynamic_attrs(repo)))
     if funcs is None:
         floor("A19", "attribute accesses on Atoms-typed values", total, 100)
     return obs
@@ -1071,7 +1096,7 @@ def A20_cif_api(repo, clause):
                     ok = api.module_has(name)
                     n += 1
                     obs.append(Ob("A20", clause, f2, c, ok, "CifFile.%s %s in the installed PyCifRW %s" % (name, "exists" if ok else "DOES NOT EXIST", api.version),
-                                  construct="CifFile.%s(...)" % name, slot="module:%s" % name))
+                                  construct="CifFile.%s(...)" % name, slot="module:%s" % name, positive=True))
                 elif isinstance(c.func, ast.Attribute) and isinstance(c.func.value, ast.Name):
                     recv = c.func.value.id
                     cls = typed.get(recv)
@@ -1084,6 +1109,6 @@ def A20_cif_api(repo, clause):
                     obs.append(Ob("A20", clause, f2, c, ok,
                                   "%s.%s %s in the installed PyCifRW %s class hierarchy %s" % (
                                       cls, c.func.attr, "exists" if ok else "DOES NOT EXIST (AttributeError on every call)", api.version, api.mro(cls)),
-                                  construct="%s.%s(...)" % (recv, c.func.attr), slot="%s.%s" % (cls, c.func.attr)))
+                                  construct="%s.%s(...)" % (recv, c.func.attr), slot="%s.%s" % (cls, c.func.attr), positive=True))
     floor("A20", "CIF library calls", n, 8)
     return obs
